@@ -28,6 +28,9 @@ CHECKS = {
  "C14": dict(text="Seeded search: the function produced by dispatch-regions{nb_cores=N} (N=2..5; thorough also function-constant-pinning) is executed by all N simulated cores; each core's history of executed tagged operations with evaluated operands must equal the original sequential history filtered by the dispatch rule (restated independently in /verif), and no schedule may deadlock at a barrier.",
               note="Trusts the interpreter and cluster model; single-block functions with scf control flow; interleavings are randomised only because the deadlock invariant depends on them (the history oracle does not).",
               tech="deterministic multi-core simulation; per-core history refinement against the filtered sequential reference, deadlock invariant", ref="5 C14"),
+ "C15": dict(text="Seeded search over schedules and trip counts: pipeline-shaped loops are compiled with construct-pipeline, pipeline-duplicate-buffers, unroll-pipeline (optionally prefixed by pipeline-canonicalize-for or followed by insert-sync-barrier,dispatch-regions) and executed by 2-3 simulated cores under seeded interleavings, stalls and burst splits; compared with the sequential loop: multiset of (stage op, external tile, data read), final contents of the function arguments, set of external cells touched; race monitor and barrier deadlock online.",
+              note="Trusts the cluster model (A4-A6); tiles of 2 elements, 2-4 stages, trip counts 0..6, lb in {0,1,3}, step in {1,2}; after fix 8d5b077 only loops with constant lb 0 / step 1 / ub >= #stages-1 are pipelined, other environments check that the loop is left alone.",
+              tech="deterministic multi-core simulation with seeded scheduler (interleavings, stalls, bursts); exactly-once/provenance multiset, final-state refinement against the sequential loop, race monitor", ref="5 C15"),
  "C06": dict(text="Seeded search as C01 with the subject accfg-config-overlap applied to traced / deduplicated programs, compared against its own input only on environments where that input was right and its state links truthful; also static SSA dominance and run-time undefined-value detection. One genuine defect is recorded as known finding KF-C06-1.",
               note="As C01; large latencies make moved setups execute inside the accelerator's busy window (probe setup-while-busy); known finding KF-C06-1 masks launch-snapshot mismatches only in programs whose loop body has two setups of one accelerator followed by a later setup of it, with dedup before overlap.",
               tech="deterministic simulation (reference vs overlapped program) with seeded clobber/latency faults; history refinement + dominance oracle", ref="5 C06"),
